@@ -6,8 +6,9 @@ copied (sources only, a few MB) into the cache and built there.
 
 Variants:
   plain  : -O1 -g0 -DLIBECPINT_VERIF                      (correspondence drivers)
-  asan   : -O1 -g  -fsanitize=address,undefined           (C11, C17)
-  tsan   : -O1 -g  -fsanitize=thread                      (C10)
+  asan   : -O0 -g1 -fsanitize=address,undefined           (C11, C17)
+  tsan   : -O0 -g1 -fsanitize=thread                      (C10)
+  (the unrolled generated files take 7-15 MINUTES each to compile with a sanitizer at -O1, seconds at -O0)
   nohook : -O1 -g0   (guard off; only used by self tests)
 Extra cmake cache entries (MAX_L / MAX_UNROL) give further variants for C09.
 """
@@ -24,8 +25,8 @@ SRC_DIRS = ["src", "include", "external", "share", "cmake", "CMakeLists.txt"]
 FLAGS = {
     "plain": "-O1 -g0 -D%s" % GUARD,
     "nohook": "-O1 -g0",
-    "asan": "-O1 -g -fno-omit-frame-pointer -fsanitize=address,undefined -fno-sanitize-recover=all -D%s -D%s_BOUNDS" % (GUARD, GUARD),
-    "tsan": "-O1 -g -fsanitize=thread -D%s" % GUARD,
+    "asan": "-O0 -g1 -fno-omit-frame-pointer -fsanitize=address,undefined -fno-sanitize-recover=all -D%s -D%s_BOUNDS" % (GUARD, GUARD),
+    "tsan": "-O0 -g1 -fsanitize=thread -D%s" % GUARD,
 }
 
 
